@@ -9,7 +9,14 @@ VT=/tmp/vt-$TAG; RT=/tmp/vt-repo-$TAG
 git -C /repo worktree add -q "$RT" HEAD || exit 2
 if ! git -C "$RT" apply "$PATCH"; then echo "patch does not apply"; git -C /repo worktree remove --force "$RT"; exit 2; fi
 mkdir -p "$VT"
-rsync -a --exclude .git --exclude 'replays/*' /verif/ "$VT"/
+if [ "${VERIF_SNAPSHOT:-0}" = 1 ]; then
+  # committed state only (the live tree may be mid-edit), plus the build caches
+  git -C /verif archive HEAD | tar -x -C "$VT"
+  mkdir -p "$VT/lean/.lake" "$VT/go/bin" "$VT/evidence" "$VT/replays"
+  rsync -a /verif/lean/.lake/ "$VT/lean/.lake/"
+else
+  rsync -a --exclude .git --exclude 'replays/*' /verif/ "$VT"/
+fi
 cd "$VT" && VERIF_GEN_WRITE=1 VERIF_REPO="$RT" ./check "$PID" --tier "$TIER"
 RC=$?
 if [ $RC -ne 0 ]; then ls "$VT"/replays/ 2>/dev/null | head -3; for f in "$VT"/replays/*.json; do [ -f "$f" ] && head -c 1500 "$f"; done; fi
